@@ -222,8 +222,9 @@ def g_int_ties(F, rng, n):
         m = (m & ~1) | rng.choice([0, 1])
         tie = (2 * m + 1) << (L - F.p - 1)                           # bit length L, exact midpoint
         below = L - F.p - 1                                          # number of bits below the rounding bit
-        pos = sorted({0, 1, below - 1} | {k for k in (63, 64, 65, 127, 128, 129, 191, 192) if 0 <= k < below})
-        for k in [None] + (rng.sample(pos, min(3, len(pos))) if below > 0 else []):
+        pos = sorted({0, 1, below - 1} | {k for k in (63, 64, 65, 127, 128, 129, 191, 192) if 0 <= k < below}
+                     | {below - 1 - 64 * j - d for j in range(0, 8) for d in (0, 1, 63) if 0 <= below - 1 - 64 * j - d})
+        for k in [None] + (rng.sample(pos, min(5, len(pos))) if below > 0 else []):
             v = tie if k is None else tie + (1 << k)
             out.append(mk(F.name, str(v), "", 0, "G10:int-tie" if k is None else "G10:int-tie+bit"))
             if k is not None and tie - (1 << k) > 0:
@@ -595,6 +596,32 @@ def g_short_eighths(F, rng, tier):
                 ds = str(ww)
                 i, f, e = rng.choice(forms_keep(ds, q - z, rng))
                 out.append(mk(F.name, i, f, e, "G20:" + name))
+    return out
+
+
+def g_zero_limbs(F, rng, tier):
+    """G21: near-halfway values >= 10^90 spelled with Z = 64, 65, 70, 128, 130, 192 ZEROS at the end of the integer part
+    (the big integer built from the digits is then a multiple of 2^Z: its low limbs are zero) and the rest of the
+    magnitude in the exponent, next to the same value spelled with all zeros in the exponent: zero low limbs meet the
+    large power-of-five step, limb shifts and "normalised" assumptions on the big-integer path"""
+    out = []
+    q = tier == "quick"
+    lo_field = F.bias + 300
+    if lo_field >= F.emaxfield - 1:
+        return out                                     # f32: no value is large enough
+    for ef in rng.sample(range(lo_field, F.emaxfield - 1), 6 if q else 60):
+        M, k = F.midpoint((ef << F.mbits) | rng.getrandbits(F.mbits))
+        ds, e10 = exact_decimal(M, k)
+        n = len(ds)
+        pre = ds[:19]
+        for up in (0, 1):
+            w = str(int(pre) + up)
+            tot = e10 + n - 19                          # value = w x 10^tot
+            for Z in (64, 65, 70, 128, 130, 192):
+                if tot - Z >= 0:
+                    out.append(mk(F.name, w + "0" * Z, "", tot - Z, "G21:zero-limbs"))
+                    out.append(mk(F.name, w + "0" * Z, "0" * 3, tot - Z, "G21:zero-limbs"))
+            out.append(mk(F.name, w + "0", "", tot - 1, "G21:plain"))
     return out
 
 
@@ -1239,6 +1266,21 @@ def g_bigint(rng, tier):
                 x2[rng.randrange(n)] ^= 1 << rng.randrange(64)
                 if x2[-1]:
                     add("compare", x, x2)
+    # hi64 / compare on SPARSE vectors: the two top limbs set and exactly one non-zero limb below them, at every position
+    # (the sticky flag must see every limb), and none at all
+    for n in list(range(3, 21)) + [30, 31, 32, 33, 61, 62]:
+        # the second limb contributes no sticky bit of its own: zero, or only the bits that are shifted into the window
+        lz = rng.choice([1, 7, 32, 63])
+        top = rng.choice([[0, rng.getrandbits(64) | 1], [0, 1 << 63],
+                          [((1 << lz) - 1) << (64 - lz), (rng.getrandbits(64) >> lz) | (1 << (63 - lz))]])
+        add("hi64", [0] * (n - 2) + top, tag="hi64:sparse-none")
+        for pos in range(0, n - 2):
+            x = [0] * (n - 2) + top
+            x[pos] = 1 << rng.randrange(64)
+            add("hi64", x, tag="hi64:sparse")
+            if not q or pos % 3 == 0:
+                y = [0] * (n - 2) + top
+                add("compare", x, y, tag="compare:sparse")
     for s in scal + [rng.getrandbits(64) for _ in range(3)]:
         add("from_u64", [], [s])
     # additions with offsets, up to and beyond the capacity
@@ -1356,6 +1398,21 @@ def g_garbage(rng, tier):
         mk_ = lambda n: [{"d": [rng.randrange(256) for _ in range(n)], "n": 1}] if n else []
         out.append({"fmt": rng.choice(["f64", "f32"]), "int": mk_(li), "frac": mk_(lf), "exp": rng.choice(exps + [rng.randrange(-400, 400)]),
                     "raw": True, "tag": "C08:random"})
+    # bytes whose first 19 ACCUMULATE to a chosen 64-bit significand (the first byte may stand for a "digit" up to 207):
+    # u64::MAX (mantissa + 1 wraps), 2^63, 10^19 and neighbours, followed by more bytes (digits were "truncated"),
+    # with exponents inside, at the ends of and far outside every table
+    for target in (U64, U64 - 1, 1 << 63, (1 << 63) - 1, 10 ** 19, 10 ** 19 - 1, U64 - 9):
+        v0, rest = divmod(target, 10 ** 18)
+        if v0 > 207:
+            continue
+        head = [48 + v0] + [48 + int(c) for c in "%018d" % rest]
+        for tail in ([], [48], [53], [255], [48] * 5 + [49]):
+            for e in (0, 5, -5, 290, 291, 300, 308, 309, 310, 319, 320, 400, 4095, 4096, -330, -342, -343, -350, -351, -359, -360, -400,
+                      -4096, I32MAX, I32MIN):
+                for fmt in ("f64", "f32"):
+                    out.append({"fmt": fmt, "int": [{"d": head + tail, "n": 1}], "frac": [], "exp": e, "raw": True, "tag": "C08:accumulate"})
+                    out.append({"fmt": fmt, "int": [{"d": head[:7], "n": 1}], "frac": [{"d": head[7:] + tail, "n": 1}], "exp": e, "raw": True,
+                                "tag": "C08:accumulate"})
     # bytes that make the big integers as large as possible: 0xFF digits (value 207) in long runs
     for n in (700, 769, 770, 1000, 5000):
         for fmt in ("f64", "f32"):
